@@ -179,8 +179,19 @@ impl Report {
     /// class), `case` is the replayable descriptor.
     pub fn violation(&self, clause: &str, case: Value, what: String) {
         let mut v = self.violations.lock().unwrap();
-        let e = v.entry(clause.to_string()).or_insert((case, what, 0));
-        e.2 += 1;
+        match v.get_mut(clause) {
+            Some(e) => {
+                e.2 += 1;
+                // keep the smallest counterexample seen for this clause (bounded effort)
+                if e.2 < 5000 && case.to_string().len() + what.len() < e.0.to_string().len() + e.1.len() {
+                    e.0 = case;
+                    e.1 = what;
+                }
+            }
+            None => {
+                v.insert(clause.to_string(), (case, what, 1));
+            }
+        }
     }
 
     /// A violation that is downgraded to a KNOWN-FINDING iff KNOWN_FINDINGS.txt lists exactly this case id.
